@@ -1,10 +1,168 @@
 /- Driver for `kind = "c04s"` (and `"c04s:…"`) cases: the structure channel of C04 and direct totality campaigns. -/
 import Driver.Common
+import AskarModel.Model.Wql
+import AskarModel.Model.WqlText
+import AskarModel.Model.Decrypt
+import AskarModel.Generated.Consts
 
-open Lean
+open Lean Askar Askar.Wql
 
 namespace Driver.C04S
 
-def runCase (_j : Json) : Json := jerr "not implemented"
+/-! filter AST of the store protocol (same shape as `Driver.Store.parseFilter`; repeated here so that this
+    executable does not depend on the store driver) -/
+
+def cmpOfName : String → Option CmpOp
+  | "eq" => some .eq | "neq" => some .neq | "gt" => some .gt | "gte" => some .gte
+  | "lt" => some .lt | "lte" => some .lte | "like" => some .like | _ => none
+
+partial def parseFilter (j : Json) : Query String :=
+  match j with
+  | .obj kvs =>
+    match kvs.toList with
+    | [(k, v)] =>
+      match k with
+      | "and" => .and ((asArr v).map parseFilter)
+      | "or" => .or ((asArr v).map parseFilter)
+      | "not" => .not (parseFilter v)
+      | "in" => match asArr v with
+        | [n, vs] => .isIn (asStr n) ((asArr vs).map asStr)
+        | _ => default
+      | "exist" => .exist ((asArr v).map asStr)
+      | _ => match cmpOfName k, asArr v with
+        | some op, [n, x] => .cmp op (asStr n) (asStr x)
+        | _, _ => default
+    | _ => default
+  | _ => default
+
+/-- the second injected test encryptor: the identity on UTF-8 (values of every length around the 12-byte boundary) -/
+def rawCrypto : TagCrypto where
+  encName s := utf8 s
+  encValue s := utf8 s
+
+def cryptoOf (j : Json) : TagCrypto := if str! j "enc" == "raw" then rawCrypto else TagCrypto.toy
+
+def jpanic : Json := Json.mkObj [("panic", .bool true)]
+
+/-- `encode_tag_filter` with the injected encryptor: `(final text, raw text, args)`; outer `none` = no clause -/
+def encodeFilter (E : TagCrypto) (f : Query String) (start : Int) : Option (String × Option String × List Bytes) :=
+  match encodeQuery E (tagQuery f) with
+  | (none, _) => none
+  | (some c, args) =>
+    let raw := toksString (render c)
+    some (raw, replaceArgsStr raw start, args)
+
+def runEncode (j : Json) : Json :=
+  match j.getObjVal? "f" with
+  | .ok fj =>
+    match encodeFilter (cryptoOf j) (parseFilter fj) (int! j "start") with
+    | none => Json.mkObj [("none", .bool true)]
+    | some (_, none, _) => jpanic
+    | some (raw, some sql, args) =>
+      Json.mkObj [("sql", .str sql), ("raw", .str raw), ("args", .arr (args.map jhex).toArray)]
+  | .error _ => jerr "bad filter"
+
+def runReplace (j : Json) : Json :=
+  match replaceArgsStr (str! j "text") (int! j "start") with
+  | some s => Json.mkObj [("out", .str s)]
+  | none => jpanic
+
+def jtags (ts : List Decrypt.EncTag) : Json :=
+  .arr (ts.map fun t => Json.arr #[jhex t.name, jhex t.value, .bool t.plaintext]).toArray
+
+def runDecode (j : Json) : Json :=
+  match Decrypt.decodeTags (hex! j "hex") with
+  | .ok ts => Json.mkObj [("ok", jtags ts)]
+  | .err _ => Json.mkObj [("err", .bool true)]
+  | .panic => jpanic
+
+/-! every single-byte substitution (255 per position), every proper prefix, every single-byte deletion — in the
+    harness's order — digested with FNV-1a-64 over one outcome line per mutation -/
+
+def fnvStep (h : UInt64) (b : UInt8) : UInt64 := (h ^^^ b.toUInt64) * 0x100000001b3
+
+def fnvStr (h : UInt64) (s : String) : UInt64 := s.toUTF8.foldl fnvStep h
+
+def mutations (b : Bytes) : List Bytes :=
+  let n := b.length
+  let subs := (List.range n).flatMap fun i =>
+    (List.range 256).filterMap fun x =>
+      if b.getD i 0 == UInt8.ofNat x then none else some (b.set i (UInt8.ofNat x))
+  let pres := (List.range n).map fun l => b.take l
+  let dels := (List.range n).map fun i => b.eraseIdx i
+  subs ++ pres ++ dels
+
+def outcomeLine (r : Decrypt.Res (List Decrypt.EncTag)) : String :=
+  match r with
+  | .panic => "P\n"
+  | .err _ => "E\n"
+  | .ok ts =>
+    "O" ++ String.join (ts.map fun t =>
+      (if t.plaintext then "1" else "0") ++ Bytes.toHex t.name ++ ":" ++ Bytes.toHex t.value ++ ";") ++ "\n"
+
+def runDecodeMut (j : Json) : Json :=
+  let ms := mutations (hex! j "hex")
+  let (ok, err, pn, h) := ms.foldl (init := (0, 0, 0, (0xcbf29ce484222325 : UInt64))) fun (ok, err, pn, h) m =>
+    let r := Decrypt.decodeTags m
+    let h := fnvStr h (outcomeLine r)
+    match r with
+    | .ok _ => (ok + 1, err, pn, h)
+    | .err _ => (ok, err + 1, pn, h)
+    | .panic => (ok, err, pn + 1, h)
+  Json.mkObj [("n", jnat (ok + err + pn)), ("ok", jnat ok), ("err", jnat err), ("panic", jnat pn),
+    ("fnv", .str (hex16 h.toNat))]
+
+/-! the final statement text -/
+
+def statement : String → Option String
+  | "config_fetch" => some Generated.configFetchQuery
+  | "config_update" => some Generated.configUpdateQuery
+  | "count" => some Generated.countQuery
+  | "delete" => some Generated.deleteQuery
+  | "fetch" => some Generated.fetchQuery
+  | "insert" => some Generated.insertQuery
+  | "update" => some Generated.updateQuery
+  | "scan" => some Generated.scanQuery
+  | "delete_all" => some Generated.deleteAllQuery
+  | "tag_insert" => some Generated.tagInsertQuery
+  | "tag_delete" => some Generated.tagDeleteQuery
+  | _ => none
+
+/-- runs of ASCII white space → one space, trimmed (the generated constants are stored in this form) -/
+def collapseWs (s : String) : String :=
+  " ".intercalate ((s.toList.splitBy fun a b => asciiWs a == asciiWs b).filterMap fun g =>
+    if g.all asciiWs then none else some (String.ofList g))
+
+def runExtend (j : Json) : Json :=
+  let base? : Option String := match strOpt j "stmt" with
+    | some name => statement name
+    | none => some (str! j "base")
+  match base? with
+  | none => jerr "unknown statement"
+  | some base =>
+    let nparams := nat! j "nparams"
+    -- as `encode_tag_filter(tag_filter, &key, params.len())`: start_index = params.len() + 1
+    let filt : Option (Option (List Char × Nat)) := match getD? j "f" with
+      | none => some none
+      | some fj => match encodeFilter (cryptoOf j) (parseFilter fj) ((nparams : Int) + 1) with
+        | none => some none
+        | some (_, none, _) => none
+        | some (_, some sql, args) => some (some (sql.toList, args.length))
+    match filt with
+    | none => jpanic
+    | some filter =>
+      match extendQuery base.toList nparams filter (intOpt j "off") (intOpt j "lim") (bool! j "order") (bool! j "desc") with
+      | none => jpanic
+      | some (q, n) =>
+        Json.mkObj [("base_ws", .str (collapseWs base)), ("suffix", .str (String.ofList (q.drop base.length))), ("nparams", jnat n)]
+
+def runCase (j : Json) : Json :=
+  match str! j "kind" with
+  | "c04s:encode" => runEncode j
+  | "c04s:replace" => runReplace j
+  | "c04s:decode_tags" => runDecode j
+  | "c04s:decode_tags_mut" => runDecodeMut j
+  | "c04s:extend" => runExtend j
+  | k => jerr ("unknown kind " ++ k)
 
 end Driver.C04S
